@@ -491,6 +491,23 @@ def error_sweep_cases(tier):
                            'drop': None, 'retry_on_fail': retry, 'schedule': {'prefix': [], 'seed': k, 'rate': rate}}
 
 
+def error_duplicate_cases(tier):
+    """the device refuses the k-th chunk and that refusal arrives twice (the copy straight behind, a little later, or - on a link that
+    resends - as the answer to the retransmission of a request whose first answer took longer than the retry period): the copy meets the
+    requests that follow at other addresses"""
+    hist = [{'op': 'write', 'mem': 0, 'addr': 100, 'len': 50, 'seed': 1, 'flush': False, 'gap': 0},
+            {'op': 'write', 'mem': 0, 'addr': 0, 'len': 30, 'seed': 2, 'flush': False, 'gap': 0},
+            {'op': 'read', 'mem': 1, 'addr': 9, 'len': 30, 'seed': 0, 'flush': False, 'gap': 0},
+            {'op': 'write', 'mem': 0, 'addr': 200, 'len': 10, 'seed': 3, 'flush': False, 'gap': 0}]
+    for k in range(0, 6):
+        for gap in (0.0001, 0.0015, 0.004):
+            yield {'sizes': [256, 128], 'ops': hist, 'needs_resending': False, 'policy': {'delays': [], 'dups': [k], 'errors': [k], 'dup_gap': gap},
+                   'drop': None, 'retry_on_fail': False, 'schedule': {'prefix': [], 'seed': k, 'rate': 0.0}}
+        for late in (1.05, 1.3):
+            yield {'sizes': [256, 128], 'ops': hist, 'needs_resending': True, 'policy': {'delays': [0.0] * k + [late] + [0.0] * 12, 'dups': [], 'errors': [k], 'dup_gap': 0.0001},
+                   'drop': None, 'retry_on_fail': False, 'schedule': {'prefix': [], 'seed': k, 'rate': 0.0}}
+
+
 def late_duplicate_cases(tier):
     """one range transferred twice in a row; each reply of the first transfer duplicated in turn, the copy arriving at every phase of the second"""
     for kind in ('read', 'write'):
@@ -679,6 +696,7 @@ def subchecks(tier):
         Sub('long-writes', run_mem, cases=long_write_cases, distinct_by_construction=True),
         Sub('drop-sweep', run_mem, cases=drop_sweep_cases, distinct_by_construction=True),
         Sub('error-sweep', run_mem, cases=error_sweep_cases, distinct_by_construction=True),
+        Sub('error-duplicates', run_mem, cases=error_duplicate_cases, distinct_by_construction=True),
         Sub('flush-histories', run_mem, cases=flush_cases, distinct_by_construction=True),
         Sub('deck-api', run_deck_api, strategy=deck_api_case(), examples={'quick': 600, 'thorough': 30000}),
     ]
